@@ -258,8 +258,20 @@ def check(pid, tier):
             shutil.rmtree(os.path.join(rd, "db"), ignore_errors=True)
             return dict(ui=ui, unit=u, shard=s, seed=seed, rc=rc, out=out, timed_out=to, rd=rd, dt=dt, req=t.get("checks", 0))
 
+        def run_job_retry(job):
+            res = run_job(job)
+            faildir = os.path.join(res["rd"], "fail")
+            has_fail = os.path.isdir(faildir) and any(f.startswith("fail-") or f == "current.json" for f in os.listdir(faildir))
+            if res["rc"] != 0 and not res["timed_out"] and not has_fail:
+                # failed without naming a case (harness/infrastructure hiccup, e.g. under load): one retry with the same seed
+                log("[retry] %s shard %d failed without a failure file (rc=%s), output tail: %s" % (res["unit"]["test"], res["shard"], res["rc"], res["out"][-600:]))
+                shutil.rmtree(res["rd"], ignore_errors=True)
+                res = run_job(job)
+                res["retried"] = True
+            return res
+
         with cf.ThreadPoolExecutor(max_workers=NCPU) as ex:
-            for res in ex.map(run_job, jobs):
+            for res in ex.map(run_job_retry, jobs):
                 results.append(res)
 
         # ---- aggregate ----
